@@ -12,7 +12,10 @@ RULE = ("55 operations {crypto_verify_16/32/64, sodium_memcmp/compare/is_zero (l
         "message / both operands / scalar / seed), EVERY byte set to 00, ff, 80, and one unrelated pattern; each member's hash of the "
         "full sequence of CFG edges and load/store addresses must equal its base's (same process, same buffers, after a warm-up call). "
         "Secrets that change a public status (zero scalar for the noclamp/ristretto multiplications) are left out. Builds: clang "
-        "SanitizerCoverage trace-pc/loads/stores on native x {all, -avx2, -avx (ref10 X25519), none}, no-asm and generic.")
+        "SanitizerCoverage trace-pc/loads/stores on native x {all, -avx2, -avx (ref10 X25519), none}, no-asm and generic. Machine-code pass: "
+        "the uninstrumented gcc-compiled native binary incl. the assembly backends (sandy2x ladder.S / ladder_base.S, salsa20 xmm6 .S, "
+        "SSE2 Poly1305; thorough also XSalsa20, Ed25519 signing and scalar multiplication) under valgrind lackey: 13 secrets per operation "
+        "in one process, the instruction-address and data-address streams between marker stores must all be identical.")
 
 META = {
     "engine": "E-trace", "level": "exploration",
@@ -21,9 +24,9 @@ META = {
             "neighbourhood of four base secrets is executed and each trace (every CFG edge and every load/store address) is compared "
             "with the base's, which catches every leak that is a function of one secret bit or byte (table index, early exit, if(bit)).",
     "note": "Bounded by the secret alphabet: this is NOT the taint analysis over all values the property's quantifier mentions (a different "
-            "family). Observes clang -O2 IR-level accesses: selects turned into branches by another compiler's back end, the two .S "
-            "backends (sandy2x, salsa20 xmm6: not instrumentable; their portable counterparts are traced instead) and micro-"
-            "architectural effects are out of scope. memcpy/memset inside libc are not traced.",
+            "family). The main pass observes clang -O2 IR-level accesses; the gcc binary and the two .S backends are covered by the valgrind-"
+            "lackey pass with a 13-secret alphabet only. Micro-architectural effects are out of scope; memcpy/memset inside libc are "
+            "not traced by the main pass (they are by lackey).",
 }
 
 
@@ -37,9 +40,75 @@ def prepare(tier):
     pass
 
 
+LACKEY_OPS = [("x25519", "avx512f", "sandy2x ladder.S"), ("x25519_base", "avx512f", "sandy2x ladder_base.S"), ("salsa20_xor", "avx512f,avx2", "salsa20 xmm6 .S"),
+              ("poly1305", "avx512f", "gcc binary, SSE2"), ("xsalsa20_xor", "avx512f,avx2", "salsa20 xmm6 .S"), ("sign", "avx512f", "gcc binary, ref10"),
+              ("ed25519_mult", "avx512f", "gcc binary, ref10")]
+
+
+def lackey_one(args):
+    """one operation under valgrind lackey: all secrets in one process; every marker-delimited segment must hash alike"""
+    import hashlib, subprocess
+    exe, op, cfg, what = args
+    env = dict(os.environ); env["SODIUM_VERIF_CPU_DISABLE"] = cfg      # Valgrind cannot decode AVX-512
+    log = os.path.join(common.VERIF, "build", "lackey-%s-%d.log" % (op, os.getpid()))
+    r = subprocess.run(["valgrind", "--tool=lackey", "--trace-mem=yes", "--log-file=" + log, exe, op], env=env, capture_output=True, text=True, timeout=3600)
+    if r.returncode != 0:
+        return op, what, None, "valgrind/harness exited %d: %s" % (r.returncode, r.stderr[-300:])
+    marker = [l for l in r.stdout.splitlines() if l.startswith("MARKER")][0].split()[1][2:].encode().lstrip(b"0")
+    segs, cur, n = [], None, 0
+    with open(log, "rb") as f:
+        for line in f:
+            if line.startswith(b" S ") and line[3:].split(b",")[0].lstrip(b"0") == marker:
+                if cur is None:
+                    cur, n = hashlib.blake2b(digest_size=16), 0
+                else:
+                    segs.append((cur.hexdigest(), n)); cur = None
+                continue
+            if cur is not None:
+                cur.update(line); n += 1
+    os.remove(log)
+    return op, what, segs, r.stdout.splitlines()[2] if len(r.stdout.splitlines()) > 2 else ""
+
+
+def lackey_pass(tier):
+    from concurrent.futures import ThreadPoolExecutor
+    from vf import build
+    res = common.Result()
+    exe = os.path.join(build.build("native"), "h_c11asm")
+    build.link_harness("native", exe, [os.path.join(common.VERIF, "harness", "c11_asm.c")])
+    ops = LACKEY_OPS[:4] if tier == "quick" else LACKEY_OPS
+    with ThreadPoolExecutor(max_workers=len(ops)) as ex:
+        outs = list(ex.map(lackey_one, [(exe, o, c, w) for o, c, w in ops]))
+    summary = []
+    for op, what, segs, info in outs:
+        origin = {"cmd": ["valgrind", "--tool=lackey", "--trace-mem=yes", exe, op], "env": {}}
+        if segs is None:
+            common.infra("lackey pass failed for %s: %s" % (op, info))
+        if len(segs) < 3:
+            common.infra("lackey pass: no segments for %s" % op)
+        res.stats["evaluations"] = res.stats.get("evaluations", 0) + len(segs) - 1
+        res.stats["nontrivial"] = res.stats.get("nontrivial", 0) + len(segs) - 1
+        if segs[0] != segs[1]:
+            common.infra("lackey pass: warm-up and first run of the same secret differ for %s (nondeterministic trace)" % op)
+        base = segs[1]
+        for k, sg in enumerate(segs[2:], start=1):
+            if sg != base:
+                res.fails.append(("secret-dependent-trace/machine-code/%s/secret=%d" % (op, k),
+                                  "instruction/data-address stream of the compiled binary (%s) differs from the base secret's: %d vs %d trace records" % (what, sg[1], base[1]), origin))
+                break
+        summary.append("%s (%s): %d secrets, %d trace records each, %s" % (op, what, len(segs) - 1, base[1], info))
+    res.samples.append("valgrind lackey: crypto_scalarmult on the sandy2x assembly ladder, 13 secrets in one process, instruction+data address streams between marker stores must be identical")
+    return res, summary
+
+
 def main(tier):
     rt = os.path.join(common.VERIF, "trace", "rt.c")
+    lres, lsummary = lackey_pass(tier)
+
+    def extra(r):
+        r.merge(lres)
+        return {"operation_shapes": r.stat("operation_shapes"), "longest_trace_events": r.stat("max_points"), "machine_code_pass(valgrind lackey)": lsummary}
     common.simple_check("C11", tier, "exploration", ["c11.c", rt], ["trace", "trace_noasm", "trace_generic"], RULE,
                         ["secret alphabet = 4 bases x all 1-bit and 1-byte neighbours", "clang -O2 instrumented binary, not the shipped gcc binary"],
                         configs=cfgs, timeout=3 * 3600,
-                        extra_cov=lambda r: {"operation_shapes": r.stat("operation_shapes"), "longest_trace_events": r.stat("max_points")})
+                        extra_cov=extra)
